@@ -10,6 +10,7 @@
                                    termination of fract_information on a checked family
    7. fixed_exact (Spec/Fixed.v)   "{:.N}" of a binary64 is the half-even rounding of its exact value *)
 From SC.Model Require Import Base Num NumF64 FloatIO Types Config Case Chrono Parser Format Run64.
+From SC.Spec Require Import Fixed.
 From SC.Gen Require Import ConfigData.
 From Coq Require Import ZArith Lia Floats ZifyNat.
 
@@ -296,7 +297,7 @@ Qed.
 Definition starts_minus (x : str) : bool := match x with c :: _ => N.eqb c 45 | [] => false end.
 
 (* the print starts with '-' exactly for values below zero, provided the rendering of the
-   magnitude does not itself start with '-' (it never does, see f64_magnitude_unsigned) and
+   magnitude does not itself start with '-' (checked for binary64 in magnitude_unsigned) and
    the integer part is not empty *)
 Theorem format_sign : forall x tsep dsep digits rm rnd out,
   format_number x tsep dsep digits rm rnd = Ok out ->
@@ -368,3 +369,238 @@ Proof.
 Qed.
 
 End WithNum.
+
+(* ------------------------------------------------------------------------------------- *)
+(* 6. binary64 facts (the executed instance; vm_compute on primitive floats)              *)
+(* ------------------------------------------------------------------------------------- *)
+(* the binary64 nearest to a decimal literal, as [NUMBER:x] injects it *)
+Definition v (x : string) : float := match f64_parse (s x) with Some f => f | None => nan end.
+
+(* separators as in the default configuration: '.' thousands, ',' decimal *)
+Definition fmt64 (x : string) (n : N) (rm rnd : bool) : res str :=
+  format_number (v x) (s ".") (s ",") n rm rnd.
+Definition spec64 (x : string) (n : N) (rm rnd : bool) : str :=
+  spec_print (PrimFloat.ltb (v x) 0) (s ".") (s ",") rm (fmt_string (v x) n rnd).
+
+(* the known finding: the two roundings disagree and the print is wrong *)
+Theorem inconsistent_refuted :
+  (* 0.995 = 0.99499999999999999556 in binary64: "{:.2}" is 0.99, the copy round(99.5)/100 is 1 *)
+  (Inconsistent (v "0.995") 2 true /\ fmt64 "0.995" 2 true true = Ok (s "0") /\ spec64 "0.995" 2 true true = s "0,99") /\
+  (Inconsistent (v "-0.995") 2 true /\ fmt64 "-0.995" 2 true true = Ok (s "-0") /\ spec64 "-0.995" 2 true true = s "-0,99") /\
+  (* 999999.995 = 999999.99499999999534: the copy has one integer digit more than the string *)
+  (Inconsistent (v "999999.995") 2 true /\ fmt64 "999999.995" 2 true true = Ok (s "9.999.99.")
+     /\ spec64 "999999.995" 2 true true = s "999.999,99") /\
+  (* 10^21: the copy round(1e23)/100 displays with 21 digits, the value has 22 *)
+  (Inconsistent (v "1e21") 2 true /\ fmt64 "1e21" 2 true true = Ok (s "100.000.000.000.000.000.000")
+     /\ spec64 "1e21" 2 true true = s "1.000.000.000.000.000.000.000") /\
+  (* rounding switched off: the digits are the shortest rendering, the copy is still rounded *)
+  (Inconsistent (v "99.995") 2 false /\ fmt64 "99.995" 2 false false = Ok (s "99.,95") /\ spec64 "99.995" 2 false false = s "99,995") /\
+  (Inconsistent (v "999.995") 2 false /\ fmt64 "999.995" 2 false false = Ok (s "9.99.,95")
+     /\ spec64 "999.995" 2 false false = s "999,995") /\
+  (Inconsistent (v "5.001") 2 false /\ fmt64 "5.001" 2 true false = Ok (s "5") /\ spec64 "5.001" 2 true false = s "5,001").
+Proof.
+  repeat split; try (vm_compute; reflexivity);
+    first [ left; vm_compute; reflexivity | right; vm_compute; reflexivity ].
+Qed.
+
+(* non-vacuity: consistent inputs, with the print one expects (default separators) *)
+Definition consistentb (x : float) (n : N) (rnd : bool) : bool := len_agree x n rnd && frac_agree x n rnd.
+
+Lemma consistentb_true x n rnd : consistentb x n rnd = true -> ~ Inconsistent x n rnd.
+Proof.
+  unfold consistentb, Inconsistent. intro H. apply andb_true_iff in H as [A B].
+  rewrite A, B. intros [C|C]; discriminate.
+Qed.
+
+Definition good_rows : list (string * N * bool * bool * string) :=
+  [ ("1234567.891", 2, true, true, "1.234.567,89"); ("-1234567.891", 0, true, true, "-1.234.568");
+    ("1234567.891", 2, true, false, "1.234.567,891");
+    ("0.5", 0, true, true, "0"); ("1.5", 0, true, true, "2"); ("2.5", 0, true, true, "2");
+    ("0.125", 2, true, true, "0,12"); ("0.375", 2, false, true, "0,38");
+    ("1000", 2, true, true, "1.000"); ("1000", 2, false, true, "1.000,00");
+    ("999", 2, false, true, "999,00"); ("100000", 1, false, true, "100.000,0");
+    ("-0.004", 2, true, true, "-0"); ("-0.004", 2, false, true, "-0,00"); ("0.004", 3, true, true, "0,004");
+    ("0", 2, false, true, "0,00"); ("-0", 2, false, true, "0,00"); ("0", 2, true, true, "0");
+    ("99.995", 2, true, true, "100"); ("99.995", 2, false, true, "100,00");
+    ("123456789.123456789", 9, true, true, "123.456.789,123456791");
+    ("0.1", 9, true, true, "0,100000000"); ("100", 0, false, false, "100");
+    ("1e15", 3, false, true, "1.000.000.000.000.000,000"); ("4.9e-324", 2, true, true, "0");
+    ("123456789012345680000", 2, true, true, "123.456.789.012.345.683.968") ]%string%N.
+
+Definition good_row_ok (r : string * N * bool * bool * string) : bool :=
+  let '(x, n, rm, rnd, out) := r in
+  consistentb (v x) n rnd &&
+  match fmt64 x n rm rnd with Ok o => str_eqb o (s out) | Panic _ => false end &&
+  str_eqb (spec64 x n rm rnd) (s out).
+
+Theorem good_rows_ok : forall r, In r good_rows -> good_row_ok r = true.
+Proof. apply forallb_forall. vm_compute. reflexivity. Qed.
+
+(* a grid: k/8 for |k| <= 100 (every tie of the last digit at 0, 1 and 2 digits is among them: the
+   string rounds it to even, the copy away from zero, and still they agree on what format_number
+   takes from the copy), digits 0..9; and the powers of ten 10^e, digits n, as long as
+   10^(e+n) is a binary64 (e + n <= 22) in both rounding settings.  Beyond, e.g. 10^21 at 2
+   digits, the copy is off (see inconsistent_refuted). *)
+Definition eighth (k : Z) : float := PrimFloat.div (f64_of_Z k) (f64_of_Z 8).
+Definition zrange (lo n : nat) : list Z := map (fun i => Z.of_nat i - Z.of_nat lo) (seq 0 n).
+Definition digit_range : list N := map N.of_nat (seq 0 10).
+
+Definition grid_ok : bool :=
+  forallb (fun k => forallb (fun n => consistentb (eighth k) n true) digit_range) (zrange 100 201)
+  && forallb (fun e => forallb (fun n =>
+                (22 <? e + Z.of_N n) || (consistentb (f64_of_Z (10 ^ e)) n true && consistentb (f64_of_Z (10 ^ e)) n false))
+                digit_range) (map Z.of_nat (seq 0 23)).
+
+Theorem grid_consistent : grid_ok = true.
+Proof. vm_compute. reflexivity. Qed.
+
+(* the sign on the executed instance: the rendering of a magnitude never starts with '-' *)
+Definition sign_family : list float :=
+  map v ["0"; "-0"; "0.004"; "-0.004"; "-0.995"; "-1"; "-1e21"; "1e21"; "-4.9e-324"; "-123456.789"; "17"]%string.
+
+Theorem magnitude_unsigned : forall x n, In x sign_family -> In n digit_range ->
+  starts_minus (fmt_string x n true) = false /\ starts_minus (fmt_string x n false) = false /\
+  fmt_trunc_part x n <> [].
+Proof.
+  assert (H : forallb (fun x => forallb (fun n =>
+              negb (starts_minus (fmt_string x n true)) && negb (starts_minus (fmt_string x n false)) &&
+              negb (Nat.eqb (length (fmt_trunc_part x n)) 0)) digit_range) sign_family = true)
+    by (vm_compute; reflexivity).
+  intros x n Hx Hn. rewrite forallb_forall in H. specialize (H x Hx). rewrite forallb_forall in H.
+  specialize (H n Hn). apply andb_true_iff in H as [H H3]. apply andb_true_iff in H as [H1 H2].
+  apply negb_true_iff in H1, H2, H3. repeat split; try assumption.
+  intro E. rewrite E in H3. discriminate.
+Qed.
+
+(* fract_information: both loops end well inside the model's fuel on binary64 (checked family:
+   the smallest subnormal needs 320 rounds of the first loop).  format_number only passes the
+   fraction of a finite value (do_division turns a non-finite quotient into 0). *)
+Definition fi_family : list float :=
+  map v ["4.9e-324"; "1e-300"; "1e-5"; "0.0001"; "0.00011"; "0.1"; "0.3333333333333333"; "0.5"; "0.9999";
+         "0.99995"; "0.999999999999"; "0.1234567"; "0.987"; "0.995"; "0.005"; "0.045"; "0"; "1e300"]%string.
+
+Theorem fract_information_terminates : forall x, In x fi_family ->
+  exists z, fract_information x = Some z /\ 0 <= z.
+Proof.
+  assert (H : forallb (fun x => match fract_information x with Some z => 0 <=? z | None => false end) fi_family = true)
+    by (vm_compute; reflexivity).
+  intros x Hx. rewrite forallb_forall in H. specialize (H x Hx).
+  destruct (fract_information x) as [z|]; [|discriminate]. exists z. split; [reflexivity|]. apply Z.leb_le. exact H.
+Qed.
+
+(* money: every configured currency is found by its code and prints the amount with its own
+   number of digits, its symbol and its placement (table regenerated from config.json) *)
+Definition currency_eqb (a b : currency) : bool :=
+  str_eqb (c_code a) (c_code b) && str_eqb (c_symbol a) (c_symbol b) && Bool.eqb (c_left a) (c_left b)
+  && Bool.eqb (c_space a) (c_space b) && N.eqb (c_digits a) (c_digits b).
+
+Definition money_row_ok (x : float) (kv : str * currency) : bool :=
+  let c := snd kv in
+  let cfg := default_config in
+  match currency_by_code cfg (c_code c), item_print cfg (s "en") 2026 (IMoney x (c_code c)) with
+  | Some c', Ok out =>
+    currency_eqb c' c && consistentb x (c_digits c) (nc_round (cf_money cfg)) &&
+    str_eqb out (money_place c (spec_print (PrimFloat.ltb x 0) (cf_tsep cfg) (cf_dsep cfg) (nc_rm (cf_money cfg))
+                                           (f64_to_fixed (PrimFloat.abs x) (c_digits c))))
+  | _, _ => false
+  end.
+
+Theorem money_table : forall kv, In kv d_currency ->
+  money_row_ok (v "1234567.891") kv = true /\ money_row_ok (v "-0.75") kv = true.
+Proof.
+  assert (H : forallb (fun kv => money_row_ok (v "1234567.891") kv && money_row_ok (v "-0.75") kv) d_currency = true)
+    by (vm_compute; reflexivity).
+  intros kv Hkv. rewrite forallb_forall in H. specialize (H kv Hkv). apply andb_true_iff in H. exact H.
+Qed.
+
+Theorem money_table_nonempty : (12 <= length d_currency)%nat /\
+  (exists kv, In kv d_currency /\ c_left (snd kv) = true /\ c_space (snd kv) = true) /\
+  (exists kv, In kv d_currency /\ c_left (snd kv) = true /\ c_space (snd kv) = false) /\
+  (exists kv, In kv d_currency /\ c_left (snd kv) = false /\ c_space (snd kv) = true) /\
+  (exists kv, In kv d_currency /\ c_left (snd kv) = false /\ c_space (snd kv) = false).
+Proof.
+  assert (F : forall p, existsb p d_currency = true -> exists kv, In kv d_currency /\ p kv = true).
+  { intros p H. apply existsb_exists in H. exact H. }
+  split; [vm_compute; lia|].
+  repeat split.
+  - destruct (F (fun kv => c_left (snd kv) && c_space (snd kv))) as [kv [I P]]; [vm_compute; reflexivity|].
+    apply andb_true_iff in P as [P1 P2]. exists kv. auto.
+  - destruct (F (fun kv => c_left (snd kv) && negb (c_space (snd kv)))) as [kv [I P]]; [vm_compute; reflexivity|].
+    apply andb_true_iff in P as [P1 P2]. apply negb_true_iff in P2. exists kv. auto.
+  - destruct (F (fun kv => negb (c_left (snd kv)) && c_space (snd kv))) as [kv [I P]]; [vm_compute; reflexivity|].
+    apply andb_true_iff in P as [P1 P2]. apply negb_true_iff in P1. exists kv. auto.
+  - destruct (F (fun kv => negb (c_left (snd kv)) && negb (c_space (snd kv)))) as [kv [I P]]; [vm_compute; reflexivity|].
+    apply andb_true_iff in P as [P1 P2]. apply negb_true_iff in P1, P2. exists kv. auto.
+Qed.
+
+(* the wrappers on the default configuration *)
+Theorem wrappers_examples :
+  item_print default_config (s "en") 2026 (IPercent (v "-1234.567")) = Ok (s "%-1.234,57") /\
+  item_print default_config (s "en") 2026 (IMoney (v "1234.5") (s "USD")) = Ok (s "$1.234,50") /\
+  item_print default_config (s "en") 2026 (IMoney (v "1234.5") (s "JPY")) = Ok (165%N :: s "1.234") /\
+  item_print default_config (s "en") 2026 (IMoney (v "1234.5") (s "EUR")) = Ok (s "1.234,50 " ++ [8364%N]) /\
+  item_print default_config (s "en") 2026 (IDynamicType (v "1.5") {| u_group := s "metric-length"; u_index := 7 |})
+    = Ok (s "1,50 Kilometer").
+Proof. vm_compute. repeat split; reflexivity. Qed.
+
+(* ------------------------------------------------------------------------------------- *)
+(* 7. "{:.N}" of a binary64 shows the half-even rounding of its exact value (Spec/Fixed.v) *)
+(* ------------------------------------------------------------------------------------- *)
+Lemma pow5_table_nth : forall i, (i < 25)%nat -> nth_error pow5_table i = Some (5 ^ (16 * Z.of_nat i)).
+Proof.
+  intros i Hi.
+  do 25 (destruct i as [|i]; [vm_compute; reflexivity|]). lia.
+Qed.
+
+Lemma pow5_correct : forall k, 0 <= k -> pow5 k = 5 ^ k.
+Proof.
+  intros k Hk. unfold pow5.
+  destruct (Z.leb_spec k 0); [replace k with 0 by lia; reflexivity|].
+  destruct (Z.ltb_spec k 400); [|reflexivity].
+  assert (Hq : 0 <= k / 16 < 25) by (split; [apply Z.div_pos; lia | apply Z.div_lt_upper_bound; lia]).
+  rewrite pow5_table_nth by lia.
+  rewrite Z2Nat.id by lia.
+  rewrite <- Z.pow_add_r by (try apply Z.mod_pos_bound; lia).
+  f_equal. pose proof (Z.div_mod k 16 ltac:(lia)). lia.
+Qed.
+
+Lemma pow2_correct : forall k, 0 <= k -> pow2 k = 2 ^ k.
+Proof. intros k Hk. unfold pow2. rewrite Z.shiftl_mul_pow2 by lia. lia. Qed.
+
+Lemma pow10_correct : forall k, 0 <= k -> pow10 k = 10 ^ k.
+Proof.
+  intros k Hk. unfold pow10.
+  destruct (Z.leb_spec k 0); [replace k with 0 by lia; reflexivity|].
+  rewrite Z.shiftl_mul_pow2 by lia. rewrite pow5_correct by lia.
+  rewrite <- Z.pow_mul_l. reflexivity.
+Qed.
+
+Theorem scaled_round_exact : forall m e p, 0 <= m -> 0 <= p ->
+  scaled_round m e p = fixed_scaled m e p.
+Proof.
+  intros m e p Hm Hp. unfold scaled_round, fixed_scaled.
+  rewrite pow10_correct by lia.
+  destruct (Z.leb_spec 0 e) as [He|He].
+  - rewrite Z.shiftl_mul_pow2 by lia. reflexivity.
+  - cbv zeta. unfold round_half_even.
+    rewrite pow2_correct by lia.
+    rewrite Z.shiftr_div_pow2 by lia.
+    replace (2 ^ (- e) - 1) with (Z.ones (- e)) by (rewrite Z.ones_equiv; lia).
+    rewrite Z.land_ones by lia.
+    rewrite Z.double_spec.
+    destruct (2 * ((m * 10 ^ p) mod 2 ^ (- e)) ?= 2 ^ (- e)); try reflexivity.
+    rewrite <- Z.negb_odd. destruct (Z.odd _); reflexivity.
+Qed.
+
+Theorem fixed_exact : forall (x : float) (n : N),
+  f64_to_fixed x n =
+  match Prim2SF x with
+  | S754_nan => s_NaN
+  | S754_infinity sg => with_sign sg s_inf
+  | S754_zero sg => with_sign sg (fixed_str 0 (Z.of_N n))
+  | S754_finite sg m e => with_sign sg (fixed_str (fixed_scaled (Zpos m) e (Z.of_N n)) (Z.of_N n))
+  end.
+Proof.
+  intros x n. unfold f64_to_fixed. destruct (Prim2SF x); try reflexivity.
+  rewrite scaled_round_exact by lia. reflexivity.
+Qed.
